@@ -16,7 +16,9 @@ package is replaced by the stand-in in /verif/stubs (one EventSolution per PV ev
 an assumed dependency contract.
 
 Domain: all job sets of <= 3 jobs drawn from a family of small DAG-shaped jobs over 5 event types (sequence, XOR
-alternatives, AND fork/join, repeated type), all split points, both chunk orders.
+alternatives, AND fork/join, repeated type), all split points, both chunk orders; plus, through the real entry point
+otel_to_puml(components="pv2puml") with -om / -im model files, 40 (thorough 300) sampled job sets x split points x
+workflow names {plain, with spaces, with an underscore}.
 
 usage: model_harness.py --tier quick|thorough --seed N --repo /repo [--replay file]
 """
@@ -109,6 +111,73 @@ def run_case(case: dict[str, Any]) -> dict[str, Any]:
     return {"violations": viol, "nontrivial": [json.dumps(case)] if untouched else [], "sample": case if untouched and len(case["jobs"]) >= 3 else None}
 
 
+def model_of(path: str) -> dict[str, Any]:
+    raw = json.load(open(path))
+    out = {"job_name": raw["job_name"], "events": {}}
+    for e in raw["events"]:
+        out["events"][e["eventType"]] = {
+            "out": sorted(sorted((x["eventType"], x["count"]) for x in s) for s in e["outgoingEventSets"]),
+            "in": sorted(sorted((x["eventType"], x["count"]) for x in s) for s in e["incomingEventSets"])}
+    return out
+
+
+def run_cli_case(case: dict[str, Any]) -> dict[str, Any]:
+    """The same statement through the real entry point `otel_to_puml(components="pv2puml")` with saved model files:
+    run 1 learns chunk 1 and writes the model (-om); run 2 loads it (-im) together with chunk 2 and writes the model
+    again; the final model must equal the one written when all jobs are supplied in one run, under the same job name."""
+    from tel2puml.otel_to_puml import otel_to_puml
+    fam = family()
+    name = case["job_name"]
+    jobs = [job(f"j{k}", fam[i]) for k, i in enumerate(case["jobs"])]
+    for j in jobs:
+        for e in j:
+            e["jobName"] = name
+    cut = case["cut"]
+    viol = []
+    tmp = tempfile.mkdtemp(prefix="vcli_", dir="/dev/shm" if os.path.isdir("/dev/shm") else None)
+    try:
+        files = []
+        for k, j in enumerate(jobs):
+            p = os.path.join(tmp, f"job{k}.json")
+            json.dump(j, open(p, "w"))
+            files.append(p)
+
+        def run(file_list: list[str], out: str, models_in: list[str]) -> str:
+            otel_to_puml(pv_to_puml_options={"file_list": file_list, "job_name": name, "group_by_job_id": False},
+                         global_options={"input_puml_models": models_in, "output_puml_models": True},
+                         output_file_directory=os.path.join(tmp, out), components="pv2puml")
+            cands = [f for f in os.listdir(os.path.join(tmp, out)) if f.endswith("_model.json")]
+            if len(cands) != 1:
+                raise RuntimeError(f"expected one model file, found {cands}")
+            pumls = [f for f in os.listdir(os.path.join(tmp, out)) if f.endswith(".puml")]
+            if len(pumls) != 1:
+                raise RuntimeError(f"expected one diagram, found {pumls}")
+            return os.path.join(tmp, out, cands[0])
+        ref = model_of(run(files, "all", []))
+        m1 = run(files[:cut], "first", [])
+        fin = model_of(run(files[cut:], "second", [m1]))
+        if ref["job_name"] != name or fin["job_name"] != name or model_of(m1)["job_name"] != name:
+            viol.append({"key": "cli_update_model/ensures.model_keeps_job_name",
+                         "what": f"job name {name!r}: model files carry {model_of(m1)['job_name']!r} / {fin['job_name']!r}", "case": case})
+        if fin["events"] != ref["events"]:
+            diff = sorted(t for t in set(fin["events"]) | set(ref["events"]) if fin["events"].get(t) != ref["events"].get(t))
+            viol.append({"key": "cli_update_model/ensures.same_model_as_one_shot", "what": f"job name {name!r}: events differing {diff}", "case": case})
+    finally:
+        shutil.rmtree(tmp, ignore_errors=True)
+    return {"violations": viol, "nontrivial": [json.dumps(case)], "sample": case if len(case["jobs"]) >= 3 else None}
+
+
+def cli_domain(tier: str, rng: random.Random) -> Any:
+    names = ["wf", "Users Service", "a b  c", "x_y"]
+    n_fam = len(family())
+    combos = [c for n in (2, 3) for c in itertools.product(range(n_fam), repeat=n)]
+    rng.shuffle(combos)
+    combos = combos[:40 if tier == "quick" else 300]
+    for k, combo in enumerate(combos):
+        for cut in range(1, len(combo)):
+            yield {"cli": True, "jobs": list(combo), "cut": cut, "job_name": names[k % len(names)]}
+
+
 def domain(tier: str, rng: random.Random) -> Any:
     n_fam = len(family())
     maxjobs = 3 if tier == "quick" else 4
@@ -127,6 +196,8 @@ def domain(tier: str, rng: random.Random) -> Any:
 
 def _work(case: dict[str, Any]) -> dict[str, Any]:
     try:
+        if case.get("cli"):
+            return run_cli_case(case)
         return run_case(case)
     except Exception as e:  # noqa: BLE001
         return {"violations": [{"key": f"update_model/no_raise.{type(e).__name__}", "what": f"{type(e).__name__}: {str(e)[:300]}", "case": case}],
@@ -149,7 +220,7 @@ def main() -> int:
         return 1 if res["violations"] else 0
     t0 = time.time()
     rng = random.Random(a.seed)
-    cases = list(domain(a.tier, rng))
+    cases = list(domain(a.tier, rng)) + list(cli_domain(a.tier, rng))
     from multiprocessing import Pool
     viol: dict[str, Any] = {}
     nontrivial: set[str] = set()
